@@ -97,7 +97,7 @@ func refCloser(t [20]byte, l, r cand) bool {
 }
 
 func runC18(r *Run) {
-	r.Result.Rule = "structured IDs (extremes, single-bit flips, all 160 shared-prefix lengths, sparse, random) and candidates drawn from small pools (ID-less, equal-distance ties, v4/v6/mapped/invalid addresses); non-trivial = distinct op line whose operands are not both random"
+	r.Result.Rule = "structured IDs (extremes, single-bit flips, all 160 shared-prefix lengths, sparse, random) and candidates drawn from small pools (ID-less, equal-distance ties, v4/v6/mapped/invalid addresses, both representations of one host); bucket index, distance and closer-than also from 8 goroutines at once; non-trivial = distinct op line whose operands are not both random"
 	nScalar := r.n(20000, 400000)
 	base := r.randID()
 	// --- int160 ops ---
